@@ -1590,7 +1590,7 @@ func main() {
 	only := os.Getenv("C08RUN_ONLY")
 	if only != "scale" {
 		directed(c)
-		for i := c.Count(400, 25000); i > 0; i-- {
+		for i := c.Count(400, 9000); i > 0; i-- {
 			emit(c, runCase(randomCase(c.Rng)))
 		}
 	}
